@@ -32,9 +32,10 @@ impl C13 {
         // a failed attempt to quotient (label-conflicting pairs) leaves the pairs pending: still refused afterwards
         if pl.q.iter().any(|&(a, b)| pl.w[a] != pl.w[b]) {
             let mut after = lx.clone();
+            ctx.count("law:refused-after-a-failed-quotient");
             if let Some(res) = lib(ctx, "quotient", "pending", &input, || after.quotient().is_ok()) {
-                if !res {
-                    ctx.count("law:refused-after-a-failed-quotient");
+                // judged only while pairs are in fact still pending (what a failed quotient leaves behind is C09's clause)
+                if !res && !after.hypergraph.quotient.0.is_empty() {
                     if let Some(o) = lib(ctx, "try_define_map_arrow", "after_failed_quotient", &input, || try_define_map_arrow(&fun, &after)) {
                         ctx.check(o.is_none(), "try_define_map_arrow/refuses-pending-unifications/value/after_failed_quotient", || json!({"input": input(), "observed": "Some"}));
                     }
